@@ -52,3 +52,43 @@ def run_files(files, cmds, launches, out_path, divergent=()):
         for e in evs:
             f.write(json.dumps(e) + "\n")
     return evs, res
+
+
+def run_arg_forms(d, out_path):
+    """every form of invocation on files of every class (spec/GramCli.tla); one 'cliargs' event per launch"""
+    gram = vf.build_gram()
+    os.makedirs(d, exist_ok=True)
+    classes = {  # key -> (file, front, run, content)
+        "lex": ("ok", "lex", "value", b"x = 1 $ 2\nx\n"), "parse": ("ok", "parse", "value", b"(1 + \n"), "type": ("ok", "type", "value", b"1 + true\n"),
+        "value": ("ok", "ok", "value", b"f = (x : int) => x + 1\nf 41\n"), "stuck": ("ok", "ok", "stuck", b"1 / 0\n"),
+        "badutf8": ("badutf8", "ok", "value", b"x = 1\n\xff\xfe\nx\n"), "missing": ("missing", "ok", "value", None), "dir": ("dir", "ok", "value", None),
+    }
+    paths = {}
+    for k, (file, front, run, content) in classes.items():
+        p = os.path.join(d, "args-%s.g" % k)
+        if k == "dir":
+            os.makedirs(p, exist_ok=True)
+        elif k == "missing":
+            if os.path.exists(p):
+                os.remove(p)
+        else:
+            open(p, "wb").write(content)
+        paths[k] = p
+    jobs = []
+    for k, (file, front, run, _) in classes.items():
+        for form, argv in (("path", [paths[k]]), ("check", ["check", paths[k]]), ("run", ["run", paths[k]]), ("extra", ["check", paths[k], "extra"])):
+            jobs.append((form, k, file, front, run, argv))
+    for form, argv in (("none", []), ("check-nopath", ["check"]), ("run-nopath", ["run"]), ("badflag", ["--frobnicate"]), ("version", ["--version"]), ("version", ["-v"]),
+                       ("help", ["--help"]), ("help", ["help"]), ("completion", ["shell-completion", "bash"]), ("completion", ["shell-completion", "ZSH"]),
+                       ("completion-bad", ["shell-completion", "nosuchshell"]), ("completion-bad", ["shell-completion"])):
+        jobs.append((form, "-", "ok", "ok", "value", argv))
+    h = lambda b: hashlib.sha256(b).hexdigest()[:16]
+    evs = []
+    for form, k, file, front, run, argv in jobs:
+        r = subprocess.run([gram] + argv, stdout=subprocess.PIPE, stderr=subprocess.PIPE, timeout=600)
+        evs.append({"ev": "cliargs", "form": form, "key": k, "file": file, "front": front, "run": run, "exit": r.returncode, "out": h(r.stdout), "err": h(r.stderr),
+                    "outlen": len(r.stdout), "errlen": len(r.stderr), "nerr": r.stderr.count(b"[Error]"), "argv": " ".join(a if not a.startswith(d) else os.path.basename(a) for a in argv)})
+    with open(out_path, "w") as f:
+        for e in evs:
+            f.write(json.dumps(e) + "\n")
+    return evs
